@@ -338,6 +338,17 @@ class CaseRunner:
         except Exception as e:
             raise common.InfraError('generated module build() failed: %r\n%s' % (e, text))
         self.run.case(c09_gen.shape_key(case), c09_gen.nontrivial(case))
+        out['tcaller'] = None
+        if case['kind'] in ('method', 'classmethod') and case.get('bind') != 'unbound':
+            # the method reached from recursively converted code: converted_call(o.m, args, kwargs, fscope)
+            try:
+                out['tcaller'] = malt.to_graph(mod.call_m, recursive=True, experimental_optional_features=None)
+            except Exception as e:   # noqa
+                self.fail('conversion of the calling function fails: %s' % str(e)[:200], crec, 0, None)
+        if case.get('falsy_self'):
+            self.stat('falsy_receivers:' + case['falsy_self'])
+        if case.get('namespaces', 1) > 1:
+            self.stat('shared_code_namespaces:%d' % case['namespaces'])
         self.stat('kind:' + case['kind'])
         self.stat('free_vars:%d' % len(c09_gen.free_names(case)))
         if case['empty']:
@@ -459,6 +470,10 @@ class CaseRunner:
         targets = [('to_graph', tf)]
         if rec['wrapped'] is not None:
             targets.append(('convert', rec['wrapped']))
+        if out.get('tcaller') is not None and inspect.ismethod(f):
+            tc, recv = out['tcaller'], f.__self__
+            targets.append(('caller', (lambda *a, **k: tc(recv, *a, **k))))
+            self.stat('method_via_converted_caller')
         sig_params = sig_kinds(f)
         unbound = case.get('bind') == 'unbound' and case['kind'] == 'method'
         if unbound:
